@@ -48,6 +48,24 @@ struct Fused {
     gate: Option<Arc<CloseGate>>,
 }
 
+/// per-history time limit (seconds); `VERIF_CASE_TIMEOUT` overrides the default of 20 (a history takes milliseconds)
+fn case_timeout() -> std::time::Duration {
+    static T: std::sync::OnceLock<u64> = std::sync::OnceLock::new();
+    std::time::Duration::from_secs(*T.get_or_init(|| std::env::var("VERIF_CASE_TIMEOUT").ok().and_then(|v| v.parse().ok()).filter(|v| *v > 0).unwrap_or(20)))
+}
+
+static UNPARKED: AtomicU64 = AtomicU64::new(0);
+
+/// how long to wait for a gated `close()` to be entered: half the case time limit the first time; once a `close()` was
+/// never entered (a defect: the guard's drop does not close its value) later waits are short, so that the run stays fast
+fn gate_wait() -> std::time::Duration {
+    match UNPARKED.load(Ordering::Relaxed) {
+        0 => case_timeout() / 2,
+        1..=3 => std::time::Duration::from_secs(1),
+        _ => std::time::Duration::from_millis(5),
+    }
+}
+
 /// (the closing thread is inside `close()`, it may go on)
 #[derive(Default)]
 struct CloseGate {
@@ -59,6 +77,9 @@ impl CloseGate {
     fn wait_reached(&self, max: std::time::Duration) -> bool {
         let st = self.st.lock().unwrap();
         let (st, _) = self.cv.wait_timeout_while(st, max, |s| !s.0).unwrap();
+        if !st.0 {
+            UNPARKED.fetch_add(1, Ordering::Relaxed);
+        }
         st.0
     }
     fn release(&self) {
@@ -1041,7 +1062,7 @@ impl World {
                 let gate = Arc::new(CloseGate::default());
                 g.val.gate = Some(gate.clone());
                 let t = std::thread::spawn(move || catch(move || drop(g)));
-                let parked = gate.wait_reached(std::time::Duration::from_secs(10));
+                let parked = gate.wait_reached(gate_wait());
                 // while the value's `close()` is parked: the owner, every handle, every free flush guard go away here
                 let r = catch(|| {
                     drop(self.owner.take());
@@ -1298,7 +1319,7 @@ fn child_main() {
         let Ok(line) = line else { break };
         let Some((sc, case)) = line.split_once('\t') else { continue };
         let ans = match Case::decode(case) {
-            Some(c) => outcome_to_json(&run_case_here(&c, sc == "1")),
+            Some(c) => outcome_to_json(&run_case_guarded(&c, sc == "1")),
             None => json!(null),
         };
         let _ = writeln!(out, "{ans}");
@@ -1309,7 +1330,8 @@ fn child_main() {
 struct ChildProc {
     child: std::process::Child,
     stdin: std::process::ChildStdin,
-    stdout: std::io::BufReader<std::process::ChildStdout>,
+    /// lines of the child's stdout (read by a helper thread, so that the parent can wait with a time limit)
+    lines: std::sync::mpsc::Receiver<String>,
 }
 
 thread_local! {
@@ -1327,11 +1349,21 @@ fn spawn_child() -> Option<ChildProc> {
         .ok()?;
     let stdin = child.stdin.take()?;
     let stdout = std::io::BufReader::new(child.stdout.take()?);
-    Some(ChildProc { child, stdin, stdout })
+    let (tx, lines) = std::sync::mpsc::channel::<String>();
+    std::thread::spawn(move || {
+        use std::io::BufRead;
+        for l in stdout.lines() {
+            let Ok(l) = l else { break };
+            if tx.send(l).is_err() {
+                break;
+            }
+        }
+    });
+    Some(ChildProc { child, stdin, lines })
 }
 
 fn run_case_in_child(c: &Case, slots_checked: bool) -> Outcome {
-    use std::io::{BufRead, Write};
+    use std::io::Write;
     CHILD_CASES.fetch_add(1, Ordering::Relaxed);
     CHILD.with(|cell| {
         let mut slot = cell.borrow_mut();
@@ -1342,13 +1374,22 @@ fn run_case_in_child(c: &Case, slots_checked: bool) -> Outcome {
             // no child process available: run here (the code as it is never aborts)
             return run_case_here(c, slots_checked);
         };
-        let mut line = String::new();
-        let ok = writeln!(cp.stdin, "{}\t{}", if slots_checked { "1" } else { "0" }, c.encode()).is_ok()
-            && cp.stdin.flush().is_ok()
-            && cp.stdout.read_line(&mut line).map(|n| n > 0).unwrap_or(false);
-        if ok {
-            if let Some(o) = serde_json::from_str::<Json>(&line).ok().and_then(|j| outcome_from_json(&j)) {
-                return o;
+        let sent = writeln!(cp.stdin, "{}\t{}", if slots_checked { "1" } else { "0" }, c.encode()).is_ok() && cp.stdin.flush().is_ok();
+        if sent {
+            // the child has its own per-history watchdog; this one is the backstop
+            match cp.lines.recv_timeout(case_timeout() * 2 + std::time::Duration::from_secs(5)) {
+                Ok(line) => {
+                    if let Some(o) = serde_json::from_str::<Json>(&line).ok().and_then(|j| outcome_from_json(&j)) {
+                        return o;
+                    }
+                }
+                Err(std::sync::mpsc::RecvTimeoutError::Timeout) => {
+                    let _ = cp.child.kill();
+                    let _ = cp.child.wait();
+                    *slot = None;
+                    return hang_outcome(c);
+                }
+                Err(_) => {}
             }
         }
         // the child died on this case
@@ -1368,11 +1409,76 @@ fn run_case_in_child(c: &Case, slots_checked: bool) -> Outcome {
     })
 }
 
+static HANGS: AtomicU64 = AtomicU64::new(0);
+
+fn hang_outcome(c: &Case) -> Outcome {
+    HANGS.fetch_add(1, Ordering::Relaxed);
+    Outcome {
+        ops: c.ops.clone(),
+        toks: vec!["hang".into()],
+        recs: vec![],
+        fail: Some((
+            "keepalive:hang".into(),
+            format!("the operations did not complete within {} s (a history takes milliseconds): deadlock", case_timeout().as_secs()),
+        )),
+        appended_at: None,
+    }
+}
+
+/// in-process runner with a time limit: histories run on a helper thread of this shard; if one does not come back, the
+/// helper is abandoned (it may be blocked for good), the history is reported as `keepalive:hang`, a new helper is started
+struct Helper {
+    tx: std::sync::mpsc::Sender<(Case, bool)>,
+    rx: std::sync::mpsc::Receiver<Outcome>,
+}
+
+thread_local! {
+    static HELPER: std::cell::RefCell<Option<Helper>> = const { std::cell::RefCell::new(None) };
+}
+
+fn run_case_guarded(c: &Case, slots_checked: bool) -> Outcome {
+    HELPER.with(|cell| {
+        let mut slot = cell.borrow_mut();
+        if slot.is_none() {
+            let (tx, job_rx) = std::sync::mpsc::channel::<(Case, bool)>();
+            let (out_tx, rx) = std::sync::mpsc::channel::<Outcome>();
+            std::thread::spawn(move || {
+                while let Ok((c, sc)) = job_rx.recv() {
+                    if out_tx.send(run_case_here(&c, sc)).is_err() {
+                        break;
+                    }
+                }
+            });
+            *slot = Some(Helper { tx, rx });
+        }
+        let h = slot.as_ref().unwrap();
+        if h.tx.send((c.clone(), slots_checked)).is_err() {
+            *slot = None;
+            return run_case_here(c, slots_checked);
+        }
+        match h.rx.recv_timeout(case_timeout()) {
+            Ok(o) => o,
+            Err(std::sync::mpsc::RecvTimeoutError::Timeout) => {
+                *slot = None;
+                hang_outcome(c)
+            }
+            Err(_) => {
+                // the helper died with a panic that escaped `run_case_here`: report it, do not take the shard down
+                *slot = None;
+                let mut o = hang_outcome(c);
+                o.fail = Some(("keepalive:panic".into(), "the thread running the history died".into()));
+                o
+            }
+        }
+    })
+}
+
 fn run_case(c: &Case, slots_checked: bool) -> Outcome {
-    if needs_child(c) && !IS_CHILD.load(Ordering::SeqCst) {
+    // threads and gates (`gdg`) and panicking destructors run in the child process, everything else on the helper thread
+    if (needs_child(c) || c.ops.iter().any(|o| matches!(o, Op::Gdg(_)))) && !IS_CHILD.load(Ordering::SeqCst) {
         run_case_in_child(c, slots_checked)
     } else {
-        run_case_here(c, slots_checked)
+        run_case_guarded(c, slots_checked)
     }
 }
 
@@ -1808,7 +1914,7 @@ fn run_gated_close() -> TraceOut {
                 log("eG:0".into());
             })
         });
-        gate.wait_reached(std::time::Duration::from_secs(10));
+        gate.wait_reached(gate_wait());
         let r = catch(|| {
             log("bR".into());
             drop(w.owner.take());
@@ -2372,6 +2478,8 @@ fn trace_stage(rep: &mut Report, args: &Args, rng: &mut Rng, c13: bool, replay: 
     rep.bump_by("slot-guard drops whose close() panicked (contained; all stages, this process)", BOMB_DROPS.load(Ordering::Relaxed));
     rep.bump_by("trace:racers that were slot guards with a panicking close()", TRACE_BOMBS.load(Ordering::Relaxed));
     rep.bump_by("histories run in the child process (a destructor panics in them)", CHILD_CASES.load(Ordering::Relaxed));
+    rep.bump_by("histories that did not complete within the time limit (keepalive:hang, seen by this process)", HANGS.load(Ordering::Relaxed));
+    rep.bump_by("gated close() never entered (this process)", UNPARKED.load(Ordering::Relaxed));
     rep.bump_by("… of which aborted the child process", CHILD_ABORTS.load(Ordering::Relaxed));
     rep.bump_by("coop budget exhaustions performed (all stages so far)", BUDGET_EXHAUSTIONS.load(Ordering::Relaxed));
     rep.bump_by("wait_for_data polls that yielded on an exhausted budget and were polled again", YIELDS_REPOLLED.load(Ordering::Relaxed));
